@@ -53,6 +53,21 @@ def both_interpreter_modes_(specs):
     return both_interpreter_modes(specs)
 
 
+_HB = []
+
+
+def HashableBits(value, length):
+    """A caller-side subclass of the library's Bitset (adds __hash__); built lazily because toolkit is imported late."""
+    if not _HB:
+        from toolkit.bits import Bitset
+
+        class _HashableBits(Bitset):
+            def __hash__(self):
+                return hash((self.value, self.length))
+        _HB.append(_HashableBits)
+    return _HB[0](value, length)
+
+
 def long_life(spec, acc, ctx):
     from toolkit.bits import Bitset
     import toolkit.prp as prp_mod
@@ -125,7 +140,11 @@ def _run_shard(spec, acc, ctx):
             use_prp = (ki % 2 == 1)
             prp = fpe_cls(message_bit_length=n, key_bit_length=len(key) * 8)
             for x in range(1 << n):
-                xb = Bitset(x, n)
+                # every third key: the caller's bit strings are instances of its own SUBCLASS of Bitset (hashable, so
+                # that they can be kept in sets) - they are n-bit strings like any other
+                xb = HashableBits(x, n) if ki % 3 == 2 else Bitset(x, n)
+                if ki % 3 == 2:
+                    acc.count("ffx.inputs_of_a_bitset_subclass")
                 y = prp(Bitset(key, len(key) * 8), xb) if use_prp else ffx.encrypt(key, xb)
                 acc.count("ffx.encrypt")
                 if len(y) != n or not (0 <= int(y) < (1 << n)):
